@@ -4,9 +4,9 @@ import Gengo.Model.DeepCopy
 
 Values are trees with explicit addresses for everything mutable that can be shared: the cell a pointer
 points to, the backing array of a slice, a map.  Copying allocates fresh addresses from a counter.
-Calls of methods that are not part of the generated body – hand-written `DeepCopy`/`DeepCopyInto`, the
-`DeepCopyInto` of another struct type, `DeepCopy<Iface>()` of the dynamic type of an interface value – are a
-parameter `call`.
+Calls of methods that are not part of the generated body are parameters: `call` stands for hand-written
+`DeepCopy`/`DeepCopyInto` methods and for `DeepCopy<Iface>()` of the dynamic type of an interface value,
+`gen t` for the generated `DeepCopy`/`DeepCopyInto` of the struct type `t`.
 -/
 namespace Gengo.DeepCopy
 
@@ -57,6 +57,22 @@ mutual
     | .cons v vs => .cons (erase v) (eraseL vs)
 end
 
+mutual
+  /-- nesting depth of a value -/
+  def depth : Val → Nat
+    | .scalar _ => 0
+    | .nil => 0
+    | .ptr _ v => depth v + 1
+    | .slice _ vs => depthL vs + 1
+    | .map _ vs => depthL vs + 1
+    | .arr vs => depthL vs + 1
+    | .struct vs => depthL vs + 1
+    | .iface v => depth v + 1
+  def depthL : Vals → Nat
+    | .nil => 0
+    | .cons v vs => max (depth v) (depthL vs)
+end
+
 abbrev Copier := Val → Nat → Val × Nat
 
 /-- apply a copier to every element, threading the allocation counter -/
@@ -80,24 +96,24 @@ def ifaceCopy (call : Copier) : Copier := fun v n =>
   | v => (v, n)
 
 mutual
-  /-- `exec call c v n`: the value `*out` holds after running shape `c` with `*in = v`, allocating from `n` on.
+  /-- `exec call gen c v n`: the value `*out` holds after running shape `c` with `*in = v`, allocating from `n` on.
   For the per-member shapes `v` is the member, for the element shapes the element.  The shapes for
   reference types run under a nil guard in every caller; run on nil they do what Go does (`make` of length 0). -/
-  def exec (call : Copier) : Code → Copier
+  def exec (call : Copier) (gen : TE → Copier) : Code → Copier
     | .fatal => fun v n => (v, n)
     | .callDeepCopy => call
     | .assignAll => fun v n => (v, n)
     | .mapLoop _ body => fun v n =>
         match v with
-        | .map _ vs => let r := mapVals (exec call body) vs (n + 1); (.map n r.1, r.2)
+        | .map _ vs => let r := mapVals (exec call gen body) vs (n + 1); (.map n r.1, r.2)
         | .nil => (.map n .nil, n + 1)
         | v => (v, n)
     | .mvDcSame => call
     | .mvDcDeref => call
     | .mvAssign => fun v n => (v, n)
-    | .mvStructDeref => call
+    | .mvStructDeref t => gen t
     | .mvIface _ => ifaceCopy call
-    | .mvRef _ p => guarded (exec call p)
+    | .mvRef _ p => guarded (exec call gen p)
     | .sliceInto _ => fun v n =>
         match v with
         | .slice _ vs => let r := mapVals call vs (n + 1); (.slice n r.1, r.2)
@@ -110,7 +126,7 @@ mutual
         | v => (v, n)
     | .sliceRef _ p => fun v n =>
         match v with
-        | .slice _ vs => let r := mapVals (guarded (exec call p)) vs (n + 1); (.slice n r.1, r.2)
+        | .slice _ vs => let r := mapVals (guarded (exec call gen p)) vs (n + 1); (.slice n r.1, r.2)
         | .nil => (.slice n .nil, n + 1)
         | v => (v, n)
     | .sliceIface _ _ => fun v n =>
@@ -118,14 +134,14 @@ mutual
         | .slice _ vs => let r := mapVals (ifaceCopy call) vs (n + 1); (.slice n r.1, r.2)
         | .nil => (.slice n .nil, n + 1)
         | v => (v, n)
-    | .sliceStruct _ => fun v n =>
+    | .sliceStruct _ e => fun v n =>
         match v with
-        | .slice _ vs => let r := mapVals call vs (n + 1); (.slice n r.1, r.2)
+        | .slice _ vs => let r := mapVals (gen e) vs (n + 1); (.slice n r.1, r.2)
         | .nil => (.slice n .nil, n + 1)
         | v => (v, n)
     | .structAll fx => fun v n =>
         match v with
-        | .struct vs => let r := execFix call fx vs n; (.struct r.1, r.2)
+        | .struct vs => let r := execFix call gen fx vs n; (.struct r.1, r.2)
         | v => (v, n)
     | .fxNil => fun v n => (v, n)
     | .fxCons _ _ _ => fun v n => (v, n)
@@ -134,21 +150,21 @@ mutual
     | .ffNone => fun v n => (v, n)
     | .ffArrayAssign => fun v n => (v, n)
     | .ffStructAssign => fun v n => (v, n)
-    | .ffStructInto => call
+    | .ffStructInto t => gen t
     | .ffIface _ => ifaceCopy call
-    | .ffRef p => guarded (exec call p)
+    | .ffRef p => guarded (exec call gen p)
     | .ffArrayLoop p => fun v n =>
         match v with
-        | .arr vs => let r := mapVals (exec call p) vs n; (.arr r.1, r.2)
+        | .arr vs => let r := mapVals (exec call gen p) vs n; (.arr r.1, r.2)
         | v => (v, n)
     | .aeInto => call
     | .aeNone => fun v n => (v, n)
-    | .aeStruct => call
+    | .aeStruct t => gen t
     | .aeIface _ => ifaceCopy call
-    | .aeRef p => guarded (exec call p)
+    | .aeRef p => guarded (exec call gen p)
     | .aeNested p => fun v n =>
         match v with
-        | .arr vs => let r := mapVals (exec call p) vs n; (.arr r.1, r.2)
+        | .arr vs => let r := mapVals (exec call gen p) vs n; (.arr r.1, r.2)
         | v => (v, n)
     | .ptrDcPtr _ => fun v n =>
         match v with
@@ -164,18 +180,18 @@ mutual
         | v => (v, n)
     | .ptrRef _ p => fun v n =>
         match v with
-        | .ptr _ d => let r := guarded (exec call p) d (n + 1); (.ptr n r.1, r.2)
+        | .ptr _ d => let r := guarded (exec call gen p) d (n + 1); (.ptr n r.1, r.2)
         | v => (v, n)
-    | .ptrStruct _ _ => fun v n =>
+    | .ptrStruct _ e => fun v n =>
         match v with
-        | .ptr _ d => let r := call d (n + 1); (.ptr n r.1, r.2)
+        | .ptr _ d => let r := gen e d (n + 1); (.ptr n r.1, r.2)
         | v => (v, n)
 
   /-- the member loop: `*out = *in` has copied every member shallowly; each fix-up replaces one -/
-  def execFix (call : Copier) : Code → Vals → Nat → Vals × Nat
+  def execFix (call : Copier) (gen : TE → Copier) : Code → Vals → Nat → Vals × Nat
     | .fxCons _ fix rest, .cons m ms, n =>
-      let r := exec call fix m n
-      let r' := execFix call rest ms r.2
+      let r := exec call gen fix m n
+      let r' := execFix call gen rest ms r.2
       (.cons r.1 r'.1, r'.2)
     | _, vs, n => (vs, n)
 end
